@@ -20,6 +20,7 @@ pub mod c17;
 pub mod c18;
 pub mod c19;
 pub mod c20;
+pub mod diff;
 pub mod pairs;
 pub mod util;
 pub mod walk;
